@@ -300,8 +300,17 @@ func VerifStubEncode(data any) ([]byte, error) {
 			return append(verifEncHead(2, uint64(len(v))), v...), nil
 		}
 	}
-	return verifOpaqueBytes("enc", data), nil
+	out := verifOpaqueBytes("enc", data)
+	if VerifAutoDeposit && len(out) > 0 {
+		// the library's round trip: decoding what it encoded yields a value of the same shape
+		VerifDeposits[&out[0]] = data
+	}
+	return out, nil
 }
+
+// VerifAutoDeposit (set by a harness): every opaque encoding is remembered, so that decoding
+// those bytes later yields the encoded value (encode/decode round trip of the library).
+var VerifAutoDeposit bool
 
 // VerifAnyIsOpaque (set by a harness): a generic decode (destination *any) with no prepared
 // value yields an opaque value and consumes one item extent.
